@@ -576,6 +576,7 @@ func (env *Env) compare(op string, a, b Value) string {
 	}
 	a, b = env.unify(a, b)
 	if isFloat(a.T) && isFloat(b.T) {
+		env.e.cmpHint(a, b)
 		return floatCmp(op, a, b)
 	}
 	switch op {
